@@ -486,7 +486,7 @@ def ctc_listing_history(acc, spec, payload):
 def run_case(acc, source, spec, path, seed=0):
     from flamapy.metamodels.fm_metamodel import transformations as T
     payload = {"source": source, "path": path,
-               "spec": spec if spec is not None and len(S.feature_names(spec)) <= 40 and len(spec.get("ctcs", [])) <= 40 else None}
+               "spec": spec if spec is not None and len(S.feature_names(spec)) <= 40 and len(spec.get("ctcs", [])) <= 200 else None}
     models = []
     if path is not None:
         ok, m = guard(acc, source, "XMLReader", [], payload,
@@ -554,4 +554,7 @@ def run_shard(desc, acc):
 
 
 def replay(payload, acc):
+    if payload.get("spec") is None and payload.get("path") is None:
+        acc.inconc("this witness (a model too large to store) is replayed by re-running the tier with the same seed")
+        return
     run_case(acc, payload["source"], payload.get("spec"), payload.get("path"))
